@@ -48,7 +48,7 @@ SimReport ==
                                        req |-> [i \in 1..cfg.n |-> SeqOfSet(cfg.req[i])], crit |-> cfg.crit,
                                        forever |-> cfg.forever, win |-> cfg.win, tmo |-> cfg.tmo, stmo |-> cfg.stmo,
                                        dur |-> cfg.dur, sdur |-> cfg.sdur, cdur |-> cfg.cdur, scdur |-> cfg.scdur, ucancel |-> cfg.ucancel,
-                                       cwait |-> cfg.cwait, preshut |-> cfg.preshut, xshut |-> cfg.xshut],
+                                       cwait |-> cfg.cwait, preshut |-> cfg.preshut, xshut |-> cfg.xshut, cout |-> cfg.cout],
                                  t0 |-> S.t0, te |-> S.te, tc |-> S.tc, st |-> S.st, nstart |-> S.nstart]))
   ELSE TRUE
 
